@@ -55,7 +55,11 @@ class G:
         if k < 0.76:
             return f"{r.choice(['abs', 'floor', 'ceil'])}({self.expr(vars_, d+1)})"
         if k < 0.84:
-            return f"({self.expr(vars_, d+1)} if {self.cond(vars_, d+1)} else {self.expr(vars_, d+1)})"
+            saved = set(self.allow); self.allow.discard("calls_in_expr")
+            try:
+                return f"({self.expr(vars_, d+1)} if {self.cond(vars_, d+1)} else {self.expr(vars_, d+1)})"
+            finally:
+                self.allow = saved
         if k < 0.9:
             return f"({self.cond(vars_, d+1)})"
         cands = [f for f in self.funcs if f[2]]
@@ -68,6 +72,13 @@ class G:
         return f"{self.expr(vars_, d+1)} {self.r.choice(['<', '<=', '>', '>=', '==', '!='])} {self.expr(vars_, d+1)}"
 
     def cond(self, vars_, d=0):
+        saved = set(self.allow); self.allow.discard("calls_in_expr")
+        try:
+            return self._cond(vars_, d)
+        finally:
+            self.allow = saved
+
+    def _cond(self, vars_, d=0):
         r = self.r
         k = r.random()
         if d > 2 or k < 0.6:
